@@ -200,6 +200,8 @@ func (c cfg) class() string {
 	return fmt.Sprintf("%s,verifier=%v,insecure=%v", e, c.Verifier, c.Insecure)
 }
 
+func (c cfg) mode() string { return fmt.Sprintf("verifier=%v,insecure=%v", c.Verifier, c.Insecure) }
+
 // ------------------------------------------------------------------ reference authenticator
 
 type refAuth struct {
@@ -577,10 +579,10 @@ func runSingles(c *vlib.Check, A, B, C *pool, pools map[string]*pool, st *stats,
 			st.unspecified.Add(1)
 			outc[k] = "unspecified"
 		case got && !want.accept:
-			results[k] = &res{fmt.Sprintf("VerifyMessage|accepted-unauthenticated|%s|%s|%s", want.failed, v.class, cf.class()),
+			results[k] = &res{fmt.Sprintf("VerifyMessage|accepted-unauthenticated|cond=%s|%s", want.failed, cf.mode()),
 				fmt.Sprintf("variant %s accepted although condition %q does not hold (%s, pools %s)", v.name, want.failed, cf.class(), regd), rp}
 		case !got && want.accept:
-			results[k] = &res{fmt.Sprintf("VerifyMessage|rejected-authentic|%s|%s", v.class, cf.class()),
+			results[k] = &res{fmt.Sprintf("VerifyMessage|rejected-authentic|%s|%s", v.class, cf.mode()),
 				fmt.Sprintf("variant %s rejected (%s) although every stated condition holds (%s, pools %s)", v.name, errStr, cf.class(), regd), rp}
 		}
 		if want.specified {
@@ -594,7 +596,11 @@ func runSingles(c *vlib.Check, A, B, C *pool, pools map[string]*pool, st *stats,
 		}
 		// a single verification must leave registration untouched and the cache equal to the model's
 		if is, ok := implState(a); ok && want.specified && got == want.accept && is != ref.state() {
-			results[k] = &res{fmt.Sprintf("VerifyMessage|state-after-single|%s", v.class), fmt.Sprintf("state %s, model %s after variant %s (%s)", is, ref.state(), v.name, cf.class()), rp}
+			kind := "state-changed-by-refused-message"
+			if got {
+				kind = "state-after-accepted-message"
+			}
+			results[k] = &res{"VerifyMessage|" + kind, fmt.Sprintf("state %s, model %s after variant %s (%s)", is, ref.state(), v.name, cf.class()), rp}
 		}
 	})
 	for k, r := range results {
@@ -733,6 +739,9 @@ func runHistories(c *vlib.Check, pools map[string]*pool, only []op, onlyCfg *cfg
 		if _, d := w.run(*onlyCfg, only, &reflectOK); d != nil {
 			report(*onlyCfg, only, d)
 		}
+		c.EvalN(int64(len(only)))
+		c.Distinct("replayed-history")
+		c.Distinct("replayed-history-prefixes")
 		c.Set("states", 1)
 		c.Set("transitions", len(only))
 		c.Set("traces_validated_against_impl", 1)
